@@ -40,7 +40,7 @@ type Profile struct {
 	BulkLogsP      float64          // probability that a transaction is a bulk reflog import (60-160 entries of one ref)
 	DeepInitP      float64          // probability that the initial stack is 12-23 uncompacted tables deep
 	InitMin        int              // the initial stack has at least this many transactions
-	WidePopularP   float64          // probability (runs with 1024-byte blocks only) that the history ends with a transaction whose table has hundreds of ref blocks holding one object id
+	WidePopularP   float64          // probability (runs with 1024- or 256-byte blocks only) that the history ends with a transaction whose table has hundreds of ref blocks holding one object id
 	BigMultiP      float64          // probability that a multi-table Addition is a bulk import of 8-32 tables (the Addition API never compacts)
 	ShortRangesP   float64          // probability that a range compaction covers just 2-3 tables at a random position of a deep stack
 }
@@ -254,21 +254,28 @@ func (g *genCtx) wideTxn() TxnSpec {
 	r := g.r
 	g.nextID++
 	tx := TxnSpec{ID: g.nextID}
+	// refs per block and random name bytes: five 166-byte names fill a
+	// 1024-byte block, one 136-byte name (plus up to two 32-byte ids) a
+	// 256-byte block
+	per, nb := 5, 75
+	if g.cfg.BlockSize == 256 {
+		per, nb = 1, 60
+	}
 	nblocks := 250 + r.Intn(21)
 	if r.Bool(0.25) {
 		nblocks = r.Pick(3, 7, 8, 9, 127, 128, 129, 300)
 	}
-	k := nblocks*5 - r.Intn(5)
-	n := (nblocks + 20) * 5
+	k := nblocks*per - r.Intn(per)
+	n := (nblocks + 20) * per
 	tag := 1 + r.Intn(2)
 	for i := 0; i < n; i++ {
 		b := make([]byte, 0, 80)
 		x := uint64(i)
-		for len(b) < 75 {
+		for len(b) < nb {
 			x = simrt.Mix64(x + 1)
 			b = append(b, byte(x), byte(x>>8), byte(x>>16), byte(x>>24), byte(x>>32))
 		}
-		rs := RefSpec{Name: fmt.Sprintf("refs/wide/%05d-%x", i, b[:75]), Kind: RefVal}
+		rs := RefSpec{Name: fmt.Sprintf("refs/wide/%05d-%x", i, b[:nb]), Kind: RefVal}
 		if i < k {
 			rs.OidTag = tag
 			if i%5 == 0 {
@@ -439,7 +446,7 @@ func GenTurn(prop string, seed uint64, p *Profile) *RunSpec {
 			ops = append(ops, OpSpec{Kind: OpAbort, H: h})
 		}
 	}
-	if p.WidePopularP > 0 && g.cfg.BlockSize == 1024 && r.Bool(p.WidePopularP) {
+	if p.WidePopularP > 0 && (g.cfg.BlockSize == 1024 || g.cfg.BlockSize == 256) && r.Bool(p.WidePopularP) {
 		ops = append(ops, OpSpec{Kind: OpUpToDate, H: 0}, OpSpec{Kind: OpReopen, H: 0, Auto: false}, OpSpec{Kind: OpAdd, H: 0, Txns: []TxnSpec{g.wideTxn()}})
 	}
 	spec.Tasks = []TaskSpec{{Name: "turn", Ops: ops}}
